@@ -3,6 +3,7 @@ package mon
 import (
 	"bytes"
 	"fmt"
+	"math/big"
 	"time"
 
 	"github.com/go-i2p/common/destination"
@@ -382,6 +383,29 @@ func runC16(c *core.Ctx) {
 			if encrypted_leaseset.VerifyBlindedSignature(bdest, dest, rnd) {
 				c.Violate("encrypted_leaseset.VerifyBlindedSignature", "accepts-random-factor", gen.Shape{"sig": st}, enc, "")
 			}
+		}
+		// a factor that differs from the derived one by a multiple of the group order is another
+		// 32-byte factor, and must fail like any other
+		for _, k := range []int64{1, 2, 7, 15} {
+			order, _ := new(big.Int).SetString("7237005577332262213973186563042994240857116359379907606001950938285454250989", 10)
+			le := func(b []byte) []byte {
+				o := make([]byte, len(b))
+				for j := range b {
+					o[j] = b[len(b)-1-j]
+				}
+				return o
+			}
+			v := new(big.Int).SetBytes(le(alpha[:]))
+			v.Add(v, new(big.Int).Mul(order, big.NewInt(k)))
+			if v.BitLen() > 256 {
+				continue
+			}
+			var f [32]byte
+			copy(f[:], le(v.FillBytes(make([]byte, 32))))
+			if encrypted_leaseset.VerifyBlindedSignature(bdest, dest, f) {
+				c.Violate("encrypted_leaseset.VerifyBlindedSignature", "accepts-factor-plus-multiple-of-group-order", gen.Shape{"sig": st, "multiple": k}, enc, "")
+			}
+			c.Bucket("blinding-check/non-canonical-congruent-factor-tried")
 		}
 		other, _ := rm.BlindingFactor(r.Bytes(32), rm.BlindingDate(day))
 		if encrypted_leaseset.VerifyBlindedSignature(bdest, dest, other) {
